@@ -314,6 +314,15 @@ fn run_inner(ctx: &Ctx) {
         emit_dec(&mut out, &e, true);
         valid_encodings.push(e);
     }
+    // the UNFRAMED decoder fed a framed message: magic + length word + a valid encoding (once and twice framed, exact
+    // and off-by-four length words) — `from_bytes` decodes tag-value messages only; the framing belongs to the caller
+    // (seeded change C05-r8: from_bytes silently stripped a ROUGHTIM frame)
+    for (i, e) in valid_encodings.iter().take(if ctx.thorough { 400 } else { 80 }).enumerate() {
+        let framed = |body: &[u8], delta: i64| { let mut v = b"ROUGHTIM".to_vec(); v.extend_from_slice(&((body.len() as i64 + delta) as u32).to_le_bytes()); v.extend_from_slice(body); v };
+        let f1 = framed(e, 0);
+        emit_dec(&mut out, &f1, i % 4 == 0);
+        match i % 4 { 0 => emit_dec(&mut out, &framed(&f1, 0), false), 1 => emit_dec(&mut out, &framed(e, 4), false), 2 => emit_dec(&mut out, &framed(e, -4), false), _ => emit_dec(&mut out, &framed(&[], 0), false) }
+    }
     // API use with unaligned values and unsorted / duplicate tags
     for _ in 0..(n_valid / 4) {
         let mut fields = gen_valid(&mut r, 64, 512);
